@@ -109,7 +109,7 @@ def numeric_unit_lines(draw):
     usual rule applies (unit 1000, value starts with the token)."""
     kind = draw(KINDS)
     digits = str(draw(st.integers(0, 99999)))
-    suffix = draw(st.sampled_from(["lbf", "psi", "kg/m3", "N", "ft.lbf"]))
+    suffix = draw(st.sampled_from(["lbf", "psi", "kg/m3", "N", "ft.lbf", "%", "\u00b0C", "\u0444\u0443\u043d\u0442", "(lbf)", "/min", "\u03a9m"]))
     single = draw(st.booleans())
     rest = draw(S.field_text(colon_ok=False))
     descr = draw(S.field_text(colon_ok=False))
